@@ -33,6 +33,9 @@ RunOK(c, r) ==
 CheckCase(c) ==
     IF c.hang THEN Fail("parse-hang", c, "")                           \* C14's matter; skipped here
     ELSE IF c.perr # "" THEN Fail("parse-error", c, c.perr)                 \* a generated well-formed query must parse (machinery)
+    \* no generated query uses a time relative to "now": a normal form whose bounds move with the reference time by an odd
+    \* amount is a filter on absolute times that lost (or gained) its tie to the time of parsing
+    ELSE IF c.unsup = "relative time condition" /\ ~c.subq THEN Fail("C03.NormalForm", c, "a bound of an absolute time filter moves with the reference time")
     ELSE IF c.unsup # "" /\ ~c.subq THEN Fail("unsupported-normal-form", c, c.unsup)
     ELSE IF c.subq THEN     \* sub-queries: the normal form is not exported; only the search results are judged (C02)
          \A i \in DOMAIN c.runs : RunOK(c, c.runs[i]) \/ Fail("C02.Result", c, ToJson(c.runs[i]))
